@@ -765,7 +765,7 @@ func genTopLevel(seed uint64, avoidA, avoidB, avoidH, avoidL bool) string {
 // statement skeletons: small functions built from if/return/throw/loop/switch
 // skeletons over two parameters, each called on a grid of truthy/falsy
 // arguments; no operation in them can throw by accident
-func genSkeleton(seed uint64) string {
+func genSkeleton(seed uint64, avoidM, avoidN, avoidO bool) string {
 	r := NewRng(seed)
 	s := &sb{}
 	id := 0
@@ -864,7 +864,62 @@ func genSkeleton(seed uint64) string {
 		s.ind -= 2
 		s.line("}")
 	}
+	extra := 0
+	if !avoidM {
+		// empty functions whose parameter defaults have effects (the call must stay)
+		id++
+		s.line("function em%d(a = %s, b) {}", nf, probe())
+		s.line("function skm%d(p, q) { em%d(); em%d(p); em%d(void 0, q); return %s; }", nf, nf, nf, nf, val())
+		extra++
+	}
+	if !avoidO {
+		// hoisted declarations after a jump inside a switch case
+		s.line("function sko%d(p, q) { \"use strict\"; switch (p) { case 0: %s; break; var hv; case 1: %s; return hv; function hf() { return 5; } } hv = q; return [hv, typeof hf]; }", nf+extra, probe(), probe())
+		extra++
+	}
+	if !avoidN {
+		// statically decided switches, including cases that cannot be decided (0x1n vs 1n)
+		tests := []string{"1n", "0x1n", "1", "\"a\"", "0", "-0", "null", "true"}
+		cases := []string{"5n", "0x1n", "1n", "3n", "1", "\"a\"", "0", "-0", "null", "true", "\"1\"", "0b1n"}
+		var sb2 strings.Builder
+		fmt.Fprintf(&sb2, "function skn%d(p, q) { switch (%s) {", nf+extra, tests[r.Intn(len(tests))])
+		nc := r.Range(2, 5)
+		for c := 0; c < nc; c++ {
+			fmt.Fprintf(&sb2, " case %s:", cases[r.Intn(len(cases))])
+			if r.Chance(65) {
+				fmt.Fprintf(&sb2, " %s;", probe())
+				if r.Chance(70) {
+					sb2.WriteString(" break;")
+				}
+			}
+		}
+		fmt.Fprintf(&sb2, " default: %s; } return %s; }", probe(), val())
+		s.line("%s", sb2.String())
+		extra++
+	}
 	args := []string{"0, 0", "1, 0", "0, 1", "1, 1", "null, \"a\"", "\"a\", null", "2, 2", "void 0, 1", "\"\", \"\""}
+	if extra > 0 {
+		names := []string{}
+		k := nf
+		if !avoidM {
+			names = append(names, fmt.Sprintf("skm%d", k))
+			k++
+		}
+		if !avoidO {
+			names = append(names, fmt.Sprintf("sko%d", k))
+			k++
+		}
+		if !avoidN {
+			names = append(names, fmt.Sprintf("skn%d", k))
+			k++
+		}
+		for _, nm := range names {
+			for _, a := range args[:5] {
+				id++
+				s.line("try { $(%d, %s(%s)); } catch (e) { $(%d, [\"thrown\", e instanceof Error ? e.constructor.name : e]); }", id, nm, a, id)
+			}
+		}
+	}
 	for f := 0; f < nf; f++ {
 		for _, a := range args {
 			id++
@@ -1303,6 +1358,9 @@ var knownInputs = []known{
 	{"J", "known-J-optional-chain-insertion-extends-parenthesized-chain", "(function() {\n  function t(a) { a != null && (a.q?.y).z; return 1; }\n  try { $(1, t({q: null})); } catch (e) { $(2, e instanceof TypeError ? \"TypeError\" : \"other\"); }\n})();", "(function() {\n  function t(a) { a != null && (a.q?.y).z; return 1; }\n  try { $(1, t({q: null})); } catch (e) { $(2, e instanceof TypeError ? \"TypeError\" : \"other\"); }\n})();", api.LoaderJS, true, false},
 	{"K", "known-K-pure-optional-call-unwrapped-evaluates-arguments", "(function() {\n  function t(a) { /* @__PURE__ */ a?.($(1, \"x\")); return 1; }\n  $(2, t(null));\n})();", "(function() {\n  function t(a) { /* @__PURE__ */ a?.($(1, \"x\")); return 1; }\n  $(2, t(null));\n})();", api.LoaderJS, true, false},
 	{"L", "known-L-nested-var-redeclaration-dropped-by-tree-shaking", "var x1 = 1;\n{ var x1 = \"d18\"; }\n$(1, typeof x1);\n{ function x2() {} }\n{ { var x2 = \"d18\"; } }\n$(2, typeof x2);", "var x1 = 1;\n{ var x1 = \"d18\"; }\n$(1, typeof x1);\n{ function x2() {} }\n{ { var x2 = \"d18\"; } }\n$(2, typeof x2);", api.LoaderJS, true, true},
+	{"M", "known-M-empty-function-call-with-default-argument-dropped", "(function() {\n  function f(a = $(1, \"default\")) {}\n  f();\n  $(2, \"after\");\n})();", "(function() {\n  function f(a = $(1, \"default\")) {}\n  f();\n  $(2, \"after\");\n})();", api.LoaderJS, true, false},
+	{"N", "known-N-switch-with-undecided-bigint-case-takes-default", "(function() {\n  switch (1n) { case 5n: $(1, \"a\"); break; case 0x1n: case 3n: $(2, \"b\"); break; default: $(3, \"d\"); }\n})();", "(function() {\n  switch (1n) { case 5n: $(1, \"a\"); break; case 0x1n: case 3n: $(2, \"b\"); break; default: $(3, \"d\"); }\n})();", api.LoaderJS, true, false},
+	{"O", "known-O-switch-case-var-after-break-lost", "(function() {\n  \"use strict\";\n  function f(y) { switch (y) { case 0: $(1, \"a\"); break; var x; } x = 1; return x; }\n  try { $(2, f(0)); } catch (e) { $(3, e instanceof ReferenceError ? \"ReferenceError\" : \"other\"); }\n})();", "(function() {\n  \"use strict\";\n  function f(y) { switch (y) { case 0: $(1, \"a\"); break; var x; } x = 1; return x; }\n  try { $(2, f(0)); } catch (e) { $(3, e instanceof ReferenceError ? \"ReferenceError\" : \"other\"); }\n})();", api.LoaderJS, true, false},
 	{"G", "known-G-pow-finite-result-not-within-rounding-error", "enum E { A = 1e300 ** 0.1 }\n$(1, E.A);", "$(1, 1e300 ** 0.1);", api.LoaderTS, false, false},
 }
 
@@ -1356,6 +1414,7 @@ func runGlue(r *Rng, n int, tier string, st *Stats) {
 	st.Extra["avoid_known_J"] = avoid["J"]
 	st.Extra["avoid_known_K"] = avoid["K"]
 	st.Extra["avoid_known_L"] = avoid["L"]
+	st.Extra["avoid_known_MNO"] = fmt.Sprint(avoid["M"], avoid["N"], avoid["O"])
 	if avoid["H2"] {
 		avoid["H"] = true // same family: the generator avoids both shapes
 	}
@@ -1371,7 +1430,7 @@ func runGlue(r *Rng, n int, tier string, st *Stats) {
 		case i%10 == 4:
 			jobs = append(jobs, glueJob{kind: "gap", seed: seed, source: genGap(seed), loader: api.LoaderJS})
 		case i%10 == 5:
-			jobs = append(jobs, glueJob{kind: "skeleton", seed: seed, source: genSkeleton(seed), loader: api.LoaderJS})
+			jobs = append(jobs, glueJob{kind: "skeleton", seed: seed, source: genSkeleton(seed, avoid["M"], avoid["N"], avoid["O"]), loader: api.LoaderJS})
 		case i%10 == 6:
 			jobs = append(jobs, glueJob{kind: "top-level", seed: seed, source: genTopLevel(seed, avoid["A"], avoid["B"], avoid["H"], avoid["L"]), loader: api.LoaderJS})
 		case i%10 == 7:
